@@ -668,7 +668,13 @@ func listByRoute(v V, elems []any, route, salt int) at.List {
 	case 1:
 		return at.NewList(elems...)
 	case 2:
-		return at.NewListFrom(append([]any{}, elems...))
+		// the slice handed to NewListFrom stays the caller's: it is overwritten right after the call
+		src := append([]any{}, elems...)
+		l := at.NewListFrom(src)
+		for i := range src {
+			src[i] = "scribbled over by the caller"
+		}
+		return l
 	case 3:
 		// NewListOf + Replace where the value differs: equal scalars keep sharing one wrapper
 		if n > 0 && v.L[0].K != KList && v.L[0].K != KObject {
@@ -713,6 +719,9 @@ func listByRoute(v V, elems []any, route, salt int) at.List {
 					}
 				}
 				l = at.NewListFrom(s)
+				for i := range s {
+					s[i] = -7777777 // the caller re-uses its buffer
+				}
 			case KString:
 				s := []string{}
 				for _, e := range v.L {
@@ -721,6 +730,9 @@ func listByRoute(v V, elems []any, route, salt int) at.List {
 					}
 				}
 				l = at.NewListFrom(s)
+				for i := range s {
+					s[i] = "scribbled"
+				}
 			case KFloat:
 				s := []float64{}
 				for _, e := range v.L {
@@ -729,6 +741,9 @@ func listByRoute(v V, elems []any, route, salt int) at.List {
 					}
 				}
 				l = at.NewListFrom(s)
+				for i := range s {
+					s[i] = -7.5e77
+				}
 			case KBool:
 				s := []bool{}
 				for _, e := range v.L {
@@ -737,6 +752,9 @@ func listByRoute(v V, elems []any, route, salt int) at.List {
 					}
 				}
 				l = at.NewListFrom(s)
+				for i := range s {
+					s[i] = !s[i]
+				}
 			}
 			for i, e := range v.L {
 				if e.K != k {
@@ -759,6 +777,9 @@ func listByRoute(v V, elems []any, route, salt int) at.List {
 				if e.K != KInt {
 					l.Replace(i, elems[i])
 				}
+			}
+			for i := range ints {
+				ints[i] = -7777777 // the caller re-uses its buffer
 			}
 			return l
 		}
